@@ -493,4 +493,123 @@ theorem C13_verdicts :
     stopsPromptly (cfg 4) aggProgs [(0, .lock 0 true), (0, .join true)] [] = true ∧
     stopsPromptly (cfg 4) aggProgs [(1, .send .txNotifyCh true)] [.txNotifyCh] = true := by decide
 
+/-! ## lock order (round 6, after seed C13-H: `updateState` → `GetLastState` under `lastStateMtx`) -/
+
+/-- **Lock order of the current tree (`decide` on the regenerated nesting table).**  `Gen.C13.lockNesting` lists, for every
+critical section of every mutex the loops lock (calls followed by object identity to any depth), the mutexes acquired
+inside it - Lock or RLock - as edges held → acquired.  Obligation: no self edge (a re-entrant acquisition of a
+non-re-entrant `sync.Mutex` / `sync.RWMutex`: the goroutine parks on itself, whatever the context says); the order
+`lockRank` computed by the extractor is CHECKED here to be a topological order of the relation (every edge goes from an
+earlier to a strictly later position), it lists every mutex; independently, the transitive closure computed in Lean has no
+mutex on a cycle; and every `lock` row of the table that is flagged free names a mutex that is free in the old sense (no
+parking operation inside its sections, `mutexes`) AND not on a cycle. -/
+theorem C13_lock_order_acyclic :
+    Locks.noSelf Gen.C13.lockNesting = true ∧
+    Locks.ranked Gen.C13.lockRank Gen.C13.lockNesting = true ∧
+    Locks.acyclic Gen.C13.lockNesting = true ∧
+    (Gen.C13.mutexes.all fun m => Gen.C13.lockRank.contains m.1) = true ∧
+    (Gen.C13.points.all fun p => p.2.1 != 5 || !p.2.2.2 ||
+      ((Gen.C13.mutexes.any fun m => m.1 == p.2.2.1 && m.2.2) && !Locks.onCycle Gen.C13.lockNesting p.2.2.1)) = true := by
+  decide
+
+/-- **No set of workers is parked on mutexes for ever (general: every nesting table, every schedule).**  Sub-model
+`Shutdown.Locks`: workers acquire mutexes as the nesting table allows (inside a critical section only what has an edge
+from everything held), the runtime grants a mutex only when nobody holds it, a holder that wants nothing leaves its
+innermost critical section by itself (that is `free`: no OTHER parking operation inside a section).  If the relation is
+ranked (`rk` rises strictly along every edge - what `C13_lock_order_acyclic` checks for the extractor's order), then from
+every reachable state: (1) whenever somebody holds or waits for a mutex, a grant or a release is enabled - no deadlock;
+(2) every schedule, the workers' own acquisitions included, has at most `lμ` steps; (3) a state in which neither the
+runtime nor a holder can move is quiet: every `lock` point reached has been passed and every mutex released - this is
+what "`lock m free` is enabled" stands for in the shutdown model; (4) no mutex is on a cycle. -/
+theorem lock_progress (nest : Locks.Nest) (rk : Nat → Nat) (hr : Locks.Ranked rk nest)
+    (init ws : List Locks.LW) (h0 : Locks.fresh init = true) (hreach : Locks.LReach nest init ws) :
+    (Locks.quiet ws = false → Locks.canMove nest ws) ∧
+    (∀ as ws', Locks.lexec nest ws as = some ws' → as.length ≤ Locks.lμ ws) ∧
+    (∀ as ws', Locks.lexec nest ws as = some ws' → ¬ Locks.canMove nest ws' → Locks.quiet ws' = true) ∧
+    (∀ m, Locks.onCycle nest m = false) := by
+  refine ⟨?_, ?_, ?_, ?_⟩
+  · exact Locks.progress_of_inv rk nest ws (Locks.linv_reach rk nest hr init ws h0 hreach)
+  · intro as ws' h
+    have := Locks.lexec_bounded nest as ws ws' h
+    omega
+  · intro as ws' h hno
+    have hr' := Locks.lreach_lexec nest init as ws ws' hreach h
+    cases hq : Locks.quiet ws' with
+    | true => rfl
+    | false => exact absurd (Locks.progress_of_inv rk nest ws' (Locks.linv_reach rk nest hr init ws' h0 hr') hq) hno
+  · exact Locks.ranked_acyclic rk nest hr
+
+/-- `lock_progress` for the nesting table of the CURRENT tree, ranked by the extractor's order as checked in
+`C13_lock_order_acyclic`: the `free` flag of the generated `lock` rows, on which `C13_termination` relies, is backed by the
+order condition and no longer by the section contents alone. -/
+theorem C13_lock_progress (init ws : List Locks.LW) (h0 : Locks.fresh init = true)
+    (hreach : Locks.LReach Gen.C13.lockNesting init ws) :
+    (Locks.quiet ws = false → Locks.canMove Gen.C13.lockNesting ws) ∧
+    (∀ as ws', Locks.lexec Gen.C13.lockNesting ws as = some ws' → as.length ≤ Locks.lμ ws) ∧
+    (∀ as ws', Locks.lexec Gen.C13.lockNesting ws as = some ws' → ¬ Locks.canMove Gen.C13.lockNesting ws' →
+      Locks.quiet ws' = true) := by
+  have h := lock_progress Gen.C13.lockNesting (Locks.pos Gen.C13.lockRank)
+    (Locks.ranked_Ranked _ _ C13_lock_order_acyclic.2.1) init ws h0 hreach
+  exact ⟨h.1, h.2.1, h.2.2.1⟩
+
+/-- non-vacuity on the generated table (one mutex, no edges): worker 0 holds `lastStateMtx`, worker 1 is parked on it - not
+quiet, the grant is not enabled, the release is; after it the request is granted and everything is released -/
+example : ∃ ws, Locks.lexec Gen.C13.lockNesting [{ left := 1 }, { left := 1 }] [.acquire 0 0, .grant 0, .acquire 1 0] = some ws ∧
+    Locks.LReach Gen.C13.lockNesting [{ left := 1 }, { left := 1 }] ws ∧
+    Locks.quiet ws = false ∧ Locks.lstep Gen.C13.lockNesting ws (.grant 1) = none ∧
+    (Locks.lexec Gen.C13.lockNesting ws [.release 0, .grant 1, .release 1]).map Locks.quiet = some true := by
+  refine ⟨[{ held := [0], left := 0 }, { want := some 0, left := 0 }], by decide, ?_, by decide, by decide, by decide⟩
+  exact Locks.lreach_lexec _ _ [.acquire 0 0, .grant 0, .acquire 1 0] _ _ Locks.LReach.init (by decide)
+
+/-- a relation with a mutex on a cycle has no ranking at all -/
+theorem not_ranked_of_onCycle (nest : Locks.Nest) (m : Nat) (h : Locks.onCycle nest m = true) (rank : List Nat) :
+    Locks.ranked rank nest = false := by
+  cases hr : Locks.ranked rank nest with
+  | false => rfl
+  | true =>
+    have := Locks.ranked_acyclic _ nest (Locks.ranked_Ranked rank nest hr) m
+    rw [h] at this; exact Bool.noConfusion this
+
+/-- seed C13-H in the small: `updateState` holds mutex 0 and, on its error path, calls a getter that locks mutex 0 -/
+def reentrantNest : Locks.Nest := [(0, 0)]
+def reentrantStuck : List Locks.LW := [{ held := [0], want := some 0, left := 0 }]
+
+/-- **re-entrant acquisition (self edge):** the table is rejected (`noSelf` false, no order exists); the state in which the
+worker waits for the mutex it holds is reachable, it is not quiet, and NO action is enabled in it - not the grant, not a
+release, nothing of the worker: it is parked for ever holding the lock (in the shutdown model: a `lock 0 false` point,
+`stopsPromptly … = false`, `C13_verdicts`) -/
+theorem reentrant_lock_witness :
+    Locks.noSelf reentrantNest = false ∧ (∀ rank, Locks.ranked rank reentrantNest = false) ∧
+    Locks.lexec reentrantNest [{ left := 2 }] [.acquire 0 0, .grant 0, .acquire 0 0] = some reentrantStuck ∧
+    Locks.LReach reentrantNest [{ left := 2 }] reentrantStuck ∧
+    Locks.quiet reentrantStuck = false ∧ (∀ a, Locks.lstep reentrantNest reentrantStuck a = none) := by
+  refine ⟨by decide, not_ranked_of_onCycle _ 0 (by decide), by decide, ?_, by decide, ?_⟩
+  · exact Locks.lreach_lexec _ _ [.acquire 0 0, .grant 0, .acquire 0 0] _ _ Locks.LReach.init (by decide)
+  · intro a
+    cases a with
+    | acquire i m => cases i <;> simp [Locks.lstep, reentrantStuck]
+    | grant i => cases i <;> simp [Locks.lstep, reentrantStuck, Locks.heldBy]
+    | release i => cases i <;> simp [Locks.lstep, reentrantStuck]
+
+/-- lock-order inversion: one code path takes mutex 0 then 1, another takes 1 then 0 -/
+def cycleNest : Locks.Nest := [(0, 1), (1, 0)]
+def cycleStuck : List Locks.LW := [{ held := [0], want := some 1, left := 0 }, { held := [1], want := some 0, left := 0 }]
+
+/-- **A→B / B→A between two workers:** no self edge, yet no order exists (`acyclic` false); the state in which each worker
+holds one mutex and waits for the other is reachable, not quiet, and dead -/
+theorem lock_cycle_witness :
+    Locks.noSelf cycleNest = true ∧ Locks.acyclic cycleNest = false ∧ (∀ rank, Locks.ranked rank cycleNest = false) ∧
+    Locks.lexec cycleNest [{ left := 2 }, { left := 2 }]
+      [.acquire 0 0, .grant 0, .acquire 1 1, .grant 1, .acquire 0 1, .acquire 1 0] = some cycleStuck ∧
+    Locks.LReach cycleNest [{ left := 2 }, { left := 2 }] cycleStuck ∧
+    Locks.quiet cycleStuck = false ∧ (∀ a, Locks.lstep cycleNest cycleStuck a = none) := by
+  refine ⟨by decide, by decide, not_ranked_of_onCycle _ 0 (by decide), by decide, ?_, by decide, ?_⟩
+  · exact Locks.lreach_lexec _ _ [.acquire 0 0, .grant 0, .acquire 1 1, .grant 1, .acquire 0 1, .acquire 1 0] _ _
+      Locks.LReach.init (by decide)
+  · intro a
+    cases a with
+    | acquire i m => rcases i with _ | _ | i <;> simp [Locks.lstep, cycleStuck]
+    | grant i => rcases i with _ | _ | i <;> simp [Locks.lstep, cycleStuck, Locks.heldBy]
+    | release i => rcases i with _ | _ | i <;> simp [Locks.lstep, cycleStuck]
+
 end Spec.C13
